@@ -230,7 +230,7 @@ var c11Families = []c11Family{
 		name:   "predicate-invalid-regexp",
 		regexp: true,
 		script: func(tag string, par int) string {
-			return fmt.Sprintf("if (match(S, \"(h%s\")) { return false; } return A > %d || match(S, \"^ab$\") || len(replace(S, \"[l%s\", \"x\")) > 9;", tag, par%3, tag)
+			return fmt.Sprintf("if (match(S, \"(h%s\") || match(S, \"(the-same-typo-everywhere\")) { return false; } return A > %d || match(S, \"^ab$\") || len(replace(S, \"[l%s\", \"x\")) > 9;", tag, par%3, tag)
 		},
 		init: func(e *evalfilter.Eval, par int) {},
 		step: func(s int64, o *Obj, par int) (int64, bool, []int64) {
